@@ -11,7 +11,7 @@
    correspondence only - cyclic_links_diverge shows why no general convergence theorem holds. *)
 From Coq Require Import ZArith List Bool Arith.
 From TV Require Import Common.Harness C20.ListSem C20.ListProofs C20.Model C20.Law C20.Steps C20.Proofs C20.Termination C20.SliceProofs C20.Star C20.StarProofs.
-From TV Require C20.Spread.
+From TV Require C20.Spread C20.TreeSpread.
 Import ListNotations.
 Open Scope Z_scope.
 
@@ -118,6 +118,38 @@ Theorem assignment_histories_converge_on_mutual_graphs :
   same_frame st (Spread.final fuel st ops).
 Proof. exact Spread.assignment_histories_converge. Qed.
 Print Assumptions assignment_histories_converge_on_mutual_graphs.
+
+(* IN-PLACE LIST MUTATIONS converge on every TREE-shaped link graph (any number of objects, any
+   branching and depth, aliases; mutual trees, and also one-way "out-trees": [otree] only asks that the
+   parts explored through two different partners of a trait do not meet): one mutation whose event
+   replays (every mutator except extended slices) brings every list trait reachable from the mutated
+   one - all of which held the same list - to the new list, touches nothing else, and stays within the
+   recursion bound.  (On graphs with a cycle this is false: cyclic_links_diverge.) *)
+Theorem list_mutation_converges_on_every_tree :
+  forall f st o n mu L,
+  TreeSpread.otree st -> Spread.no_locks st -> overflow st = false -> (Phi st < f)%nat ->
+  Spread.in_range st (o, n) -> is_list_name n = true -> replayable_mut mu = true ->
+  (forall y, Spread.reach st (o, n) y -> Spread.val st y = VL L) ->
+  let st' := fst (step f st (Mut o n mu)) in
+  overflow st' = false /\ same_frame st st' /\
+  exists L'', (forall y, Spread.reach st (o, n) y -> Spread.val st' y = VL L'') /\
+              (forall y, Spread.val st' y = Spread.val st y \/ Spread.reach st (o, n) y).
+Proof. exact TreeSpread.mut_step_converges. Qed.
+Print Assumptions list_mutation_converges_on_every_tree.
+
+(* ... hence every history of assignments and list mutations on a mutual tree keeps all linked traits equal *)
+Theorem mutual_trees_are_out_trees : forall st, TreeSpread.tree st -> TreeSpread.otree st.
+Proof. exact TreeSpread.tree_otree. Qed.
+Print Assumptions mutual_trees_are_out_trees.
+
+Theorem histories_converge_on_every_mutual_tree :
+  forall fuel ops st,
+  TreeSpread.tree st -> Spread.consistent st -> Spread.no_locks st -> overflow st = false ->
+  (Phi st < fuel)%nat -> TreeSpread.ops_ok st ops ->
+  Spread.consistent (Spread.final fuel st ops) /\ overflow (Spread.final fuel st ops) = false /\
+  same_frame st (Spread.final fuel st ops).
+Proof. exact TreeSpread.tree_histories_converge. Qed.
+Print Assumptions histories_converge_on_every_mutual_tree.
 
 Theorem mutual_converges :
   forall F n m va vb nts o,
@@ -235,6 +267,51 @@ Example graph_history_converges :
 Proof.
   split; [|vm_compute; split; reflexivity].
   apply Spread.assignment_histories_converge_checked; vm_compute; reflexivity.
+Qed.
+
+(* Non-vacuity of the tree theorems: five objects, the list traits linked as the tree
+   1 - 0 - 2 - {3, 4} (the link 0 - 2 with an alias), built by sync_trait itself; [treeb] decides the
+   hypotheses (symmetry, acyclicity by a checked closure, items handlers attached, ranges). *)
+Definition tree_ops : list op :=
+  [Sync 0 2 1 2 true; Sync 0 2 2 3 true; Sync 2 3 3 2 true; Sync 2 3 4 2 true]%nat.
+Definition tree_st : state :=
+  Spread.final 40 (init_state [tv 0 0 [1; 2] []; tv 1 1 [] []; tv 2 2 [] [9]; tv 3 3 [] []; tv 4 4 [] []]) tree_ops.
+Example tree_history_converges :
+  let h := [Mut 4 2 (MAppend 7); Mut 1 2 (MSetS (Some 0%Z, Some 1%Z, None) [5; 6]%Z); Mut 2 3 (MSort true);
+            Assign 3 2 (VL [4; 4]%Z); Mut 0 2 (MPop None); Mut 3 2 (MInsert 0 8)]%nat in
+  Spread.consistent (Spread.final 40 tree_st h)
+  /\ map (fun x => Spread.val (Spread.final 40 tree_st h) x) [(0, 2); (1, 2); (2, 3); (3, 2); (4, 2)]%nat
+     = [VL [8; 4]; VL [8; 4]; VL [8; 4]; VL [8; 4]; VL [8; 4]]%Z
+  /\ TreeSpread.treeb tree_st = true /\ TreeSpread.treeb graph_st = false.
+Proof.
+  split; [|vm_compute; repeat split; reflexivity].
+  apply TreeSpread.tree_histories_converge_checked; vm_compute; reflexivity.
+Qed.
+
+(* ... and a ONE-WAY fan-out 0 -> 1, 0 -> 2 (alias), 2 -> 3 on list traits that agree: not a mutual tree, but an
+   out-tree ([otreeb], sound); a mutation at the root reaches all four, a mutation at 2 only 2 and 3. *)
+Definition fan_ops : list op :=
+  [Sync 0 2 1 2 false; Sync 0 2 2 3 false; Sync 2 3 3 2 false]%nat.
+Definition fan_st : state :=
+  Spread.final 40 (init_state [tv 0 0 [1; 2] []; tv 1 1 [] []; tv 2 2 [] [9]; tv 3 3 [] []]) fan_ops.
+Example one_way_tree_mutation :
+  TreeSpread.otreeb fan_st = true /\ TreeSpread.treeb fan_st = false
+  /\ map (fun x => Spread.val (fst (step 40 fan_st (Mut 0%nat 2%nat (MAppend 7)))) x) [(0, 2); (1, 2); (2, 3); (3, 2)]%nat
+     = [VL [1; 2; 7]; VL [1; 2; 7]; VL [1; 2; 7]; VL [1; 2; 7]]%Z
+  /\ (exists L'', forall y, Spread.reach fan_st (0, 2)%nat y ->
+                           Spread.val (fst (step 40 fan_st (Mut 0%nat 2%nat (MAppend 7)))) y = VL L'').
+Proof.
+  split; [vm_compute; reflexivity|]. split; [vm_compute; reflexivity|]. split; [vm_compute; reflexivity|].
+  destruct (list_mutation_converges_on_every_tree 40 fan_st 0%nat 2%nat (MAppend 7) [1; 2]%Z) as (_ & _ & L'' & H & _).
+  - apply TreeSpread.otreeb_sound. vm_compute. reflexivity.
+  - apply Spread.no_locksb_sound. vm_compute. reflexivity.
+  - vm_compute. reflexivity.
+  - vm_compute. repeat constructor.
+  - vm_compute. split; repeat constructor.
+  - reflexivity.
+  - reflexivity.
+  - apply TreeSpread.component_agrees_checked; vm_compute; reflexivity.
+  - exists L''. exact H.
 Qed.
 
 (* Non-vacuity: an accepted history in which values propagate in both directions, an extended-slice
